@@ -3,6 +3,7 @@ package exec
 import (
 	"fmt"
 	"os"
+	"strconv"
 	"go/types"
 	"sort"
 	"strings"
@@ -1188,7 +1189,29 @@ func inSortStrings(x *Exec, s *State, a []Value, _ *ssa.Call) []Outcome {
 
 // ---------- strconv.ParseFloat (stub with an alphabet contract) ----------
 
-const floatAlphabet = "0123456789+-._eEpPxXiInNfFaAtTyY"
+const floatAlphabet = "0123456789+-._eEpPxXiInNfFaAtTyYbBcCdD"
+
+// parseFloatAccepted[L] lists every string of length L over the float alphabet that the
+// real strconv.ParseFloat accepts (L <= 3): short arguments are modelled exactly.
+var parseFloatAccepted = func() [4][]string {
+	var acc [4][]string
+	var rec func(prefix string, l int)
+	rec = func(prefix string, l int) {
+		if len(prefix) == l {
+			if _, err := strconv.ParseFloat(prefix, 64); err == nil {
+				acc[l] = append(acc[l], prefix)
+			}
+			return
+		}
+		for i := 0; i < len(floatAlphabet); i++ {
+			rec(prefix+string(floatAlphabet[i]), l)
+		}
+	}
+	for l := 1; l <= 3; l++ {
+		rec("", l)
+	}
+	return acc
+}()
 
 func inParseFloat(x *Exec, s *State, a []Value, _ *ssa.Call) []Outcome {
 	str := a[0].(Str)
@@ -1196,9 +1219,23 @@ func inParseFloat(x *Exec, s *State, a []Value, _ *ssa.Call) []Outcome {
 		// concrete: use the real answer (validated natively)
 		return one(Tuple{Opaque{"float"}, parseFloatErr(x, cs)})
 	}
-	// nondeterministic result; err == nil only if the contract holds
 	c := x.Ctx
-	okAlpha := smt.Bool(len(str.B) > 0)
+	errVal := func() Value { return Iface{T: x.W.ErrType, V: x.W.newExt("error", nil)} }
+	if len(str.B) <= 3 {
+		// exact: membership in the accepted set of that length (every accepted string lies
+		// over the alphabet; checked at start-up by construction of the table)
+		succ := smt.False
+		for _, acc := range parseFloatAccepted[len(str.B)] {
+			succ = c.Or(succ, x.strEq(str, StrOf(acc)))
+		}
+		x.noteAssume("strconv.ParseFloat: exact for arguments of <= 3 bytes (table of the real function over its alphabet)")
+		return []Outcome{
+			{Cond: succ, Val: Tuple{Opaque{"float"}, Iface{}}},
+			{Cond: c.Not(succ), Val: Tuple{Opaque{"float"}, errVal()}},
+		}
+	}
+	// longer arguments: nondeterministic result; err == nil only if the contract holds
+	okAlpha := smt.True
 	for _, b := range str.B {
 		okAlpha = c.And(okAlpha, x.byteIn(b, []byte(floatAlphabet)))
 	}
@@ -1217,10 +1254,10 @@ func inParseFloat(x *Exec, s *State, a []Value, _ *ssa.Call) []Outcome {
 	}
 	x.pfCalls = append(x.pfCalls, pfCall{str, choice})
 	succ := c.And(okAlpha, c.Eq(choice, smt.Byte(1)))
-	x.noteAssume("strconv.ParseFloat: err == nil only for non-empty strings over [" + floatAlphabet + "] (nondeterministic otherwise)")
+	x.noteAssume("strconv.ParseFloat (arguments > 3 bytes): err == nil only for strings over [" + floatAlphabet + "], otherwise an arbitrary function of its argument")
 	return []Outcome{
 		{Cond: succ, Val: Tuple{Opaque{"float"}, Iface{}}},
-		{Cond: c.Not(succ), Val: Tuple{Opaque{"float"}, Iface{T: x.W.ErrType, V: x.W.newExt("error", nil)}}},
+		{Cond: c.Not(succ), Val: Tuple{Opaque{"float"}, errVal()}},
 	}
 }
 
